@@ -240,6 +240,23 @@ class SearchA(Problem):
             self.contents = contents
             self.hh = None
             self.alphabet = []
+        elif variant == "bare-exact":
+            # hunks without any file header (`p4 describe -du`, the `patch` text of the GitHub API, a pasted hunk); true counts
+            self.np = 1
+            self.header = [b"==== //depot/f.txt#3 (text) ===="]
+            self.contents = contents
+            self.hh = None
+            self.alphabet = []
+        elif variant == "prose-combined":
+            # `git show <annotated tag>` of a merge commit whose tag message holds a line starting with `--- `
+            self.np = 2
+            self.header = [b"tag v1.0", b"Tagger: A U Thor <a@example.com>", b"", b"--- Changes ---", b"",
+                           b"commit 1111111111111111111111111111111111111111", b"",
+                           b"diff --cc f.txt", b"index 1111111,2222222..3333333",
+                           b"--- a/f.txt", b"+++ b/f.txt"]
+            self.hh = [b"@@@ -1,9 -1,9 +1,9 @@@", b"@@@ -21,2 -21,2 +21,3 @@@ fn frag()"]
+            self.alphabet = [(p + c, producers.hunk_line_kind(p + c, 2))
+                             for c in contents for p in (b"  ", b"- ", b" -", b"--", b"+ ", b" +", b"++")]
         elif variant == "conflict":
             self.np = 2
             self.header = [b"diff --cc f.txt", b"index 1111111,2222222..0000000",
@@ -264,7 +281,7 @@ class SearchA(Problem):
             return self._hunk_headers(0)
         if self.variant == "conflict" and stage != "hunk":
             return self._conflict_successors(ps)
-        if self.variant == "diffu-exact":
+        if self.variant in ("diffu-exact", "bare-exact"):
             return self._exact_successors(ps)
         # stage == "hunk": a = hunk index, b = lines used
         out = []
@@ -352,7 +369,7 @@ class SearchA(Problem):
                     "never shown" % (l, what), expected=l.decode("utf-8", "replace"))
 
     def _hunk_headers(self, idx):
-        if self.variant == "diffu-exact":
+        if self.variant in ("diffu-exact", "bare-exact"):
             return self._exact_successors(("hunk", 0, 0, None))
         if self.variant in ("diffu", "diffu-ru"):
             # counts matter for plain diff -u (they drive the ambiguous '--- ' counter): offer
@@ -583,6 +600,8 @@ def plan(tier):
                 ("A", "diffu-ru", [b"x", b"-- y", b"++ y"], 3, 1),
                 ("A", "conflict", [b"x", b""], 2, 1),
                 ("A", "diffu-exact", [b"x", b"-- y"], 3, 2),
+                ("A", "bare-exact", [b"x", b"-- y"], 3, 2),
+                ("A", "prose-combined", [b"x", b"B"], 3, 1),
                 ("B", 2, ["modified", "mode", "rename_change"], None, "diffu")]
     else:
         specs = [("A", "unified", CONTENTS_QUICK, 4, 1),
@@ -593,6 +612,8 @@ def plan(tier):
                 ("A", "diffu-ru", CONTENTS_FULL, 3, 1),
                 ("A", "conflict", [b"x", b"", b"\tt", b"\xc3\xa9\xe6\xbc\xa2"], 3, 1),
                 ("A", "diffu-exact", [b"x", b"-- y", b"++ y", b""], 4, 2),
+                ("A", "bare-exact", [b"x", b"-- y", b"++ y"], 4, 2),
+                ("A", "prose-combined", CONTENTS_QUICK[:3], 3, 1),
                 ("B", 3, None, ["ctx", "minus", "minusplus"], "git"),
                 ("B", 2, ["modified"], None, "diffu")]
     for label, ov, k in configs:
